@@ -584,6 +584,76 @@ def run_sp(case):
 
 
 
+# ------------------------------------------------------------------------------------------- integer types, full range
+INT_RANGES = {"int8": (-128, 127), "uint8": (0, 255), "int16": (-32768, 32767), "uint16": (0, 65535), "int32": (-2**31, 2**31 - 1), "uint32": (0, 2**32 - 1), "int64": (-2**40, 2**40)}
+
+
+@st.composite
+def it_case(draw, tier="quick"):
+    kind = draw(st.sampled_from(["join_pp2", "meet_ll2", "join_pp3", "join_ppp3", "meet_ee3", "meet_eee3"]))
+    dim, op, nb = KINDS[kind]
+    dt = draw(st.sampled_from(sorted(INT_RANGES)))
+    lo, hi = INT_RANGES[dt]
+    # every product of nb coordinates and the sum of 24 of them must be an integer below 2^53: then the exact result is representable
+    bound = 2**25 if nb == 2 else 2**15
+    lo, hi = max(lo, -bound), min(hi, bound)
+    coord = st.one_of(st.integers(lo, hi), st.integers(lo, hi), st.sampled_from([lo, hi, hi - 1, lo + 1]), st.integers(max(lo, -9), 9))
+    npos = draw(st.sampled_from([1, 1, 3]))
+    return {"kind": kind, "dt": dt, "elems": [[[draw(coord) for _ in range(dim)] + [1] for _ in range(nb)] for _ in range(npos)], "mixed": draw(st.sampled_from([None, None, "int64", "float64"]))}
+
+
+def run_it(case):
+    """every argument an array of one integer type, coordinates over the whole range of the type (as far as the exact result stays
+    below 2^53): the result is exactly proportional to the exact span / intersection - numpy's integer arithmetic wraps around
+    silently, the library must not compute in the narrow type"""
+    kind, dt = case["kind"], case["dt"]
+    if kind not in KINDS or dt not in INT_RANGES or case.get("mixed") not in (None, "int64", "float64"):
+        raise Skip("malformed")
+    dim, op, nb = KINDS[kind]
+    n = dim + 1
+    lo, hi = INT_RANGES[dt]
+    bound = 2**25 if nb == 2 else 2**15
+    per_pos = []
+    for el in case["elems"]:
+        if len(el) != nb or any(len(v) != n or any(not isinstance(x, int) or not max(lo, -bound) <= x <= min(hi, bound) for x in v) for v in el):
+            raise Skip("malformed")
+        args = args_exact(kind, [[Fraction(x) for x in v] for v in el], [Fraction(1), Fraction(1)])
+        r = exact_result(kind, args, n)
+        if r is None:
+            raise Skip("not in general position")
+        per_pos.append((args, r))
+    npos = len(per_pos)
+    objs = []
+    for k in range(nb):
+        arr = np.array([[int(x) for x in per_pos[i][0][k][1]] for i in range(npos)], dtype=np.int64)
+        arr = arr.astype(case["mixed"] if case.get("mixed") and k == 0 else dt)
+        tag = per_pos[0][0][k][0]
+        if npos == 1:
+            o = (Point if tag == "P" else (Line if n == 3 else Plane))(arr[0])
+        else:
+            o = (PointCollection if tag == "P" else (LineCollection if n == 3 else PlaneCollection))(arr)
+        if o.array.dtype != arr.dtype:
+            raise HarnessError(f"dtype {o.array.dtype} instead of {arr.dtype}")
+        objs.append(o)
+    site = f"integer-type:{kind}:{dt}" + (f":first-argument-{case['mixed']}" if case.get("mixed") else "")
+    res, f = call(site, (join if op == "join" else meet), *objs)
+    if f:
+        return [f]
+    ck = Checker()
+    got_all = np.asarray(res.array)
+    for i, (_, r) in enumerate(per_pos):
+        tgt = r[1] if r[0] in "PH" else [x for row in dual_plucker(r[1], r[2]) for x in row]
+        got = np.asarray(got_all if npos == 1 else got_all[i], float).ravel()
+        if not ck.check(got.shape == (len(tgt),) and bool(np.all(np.isfinite(got))), site + ":shape", (got_all.shape, len(tgt))):
+            break
+        j = max(range(len(tgt)), key=lambda t: abs(tgt[t]))
+        ok = got[j] != 0 and all(Fraction(float(got[t])) * tgt[j] == tgt[t] * Fraction(float(got[j])) for t in range(len(tgt)))
+        if not ck.check(ok, site + ":exactly-the-span-or-intersection", C.short((got.tolist(), [float(x) for x in tgt]))):
+            break
+    return ck.result()
+
+
+
 # ------------------------------------------------------------------------------------------- results and arguments at infinity
 @st.composite
 def inf_case(draw, tier="quick"):
@@ -700,6 +770,11 @@ LAWS = [
         "parallel lines / planes, a plane and a parallel line, three planes with a common direction, the line at infinity of parallel planes cut with a plane, joins of directions, the plane at infinity as an argument: exact result in every argument order", shard=300),
     Law("single_precision", lambda tier: sp_case(tier), run_sp, lambda c: True, lambda c: [c["kind"], "complex64" if c["cplx"] else "float32"] + (["one-double-argument"] if c["mixed"] else []) + (["collection"] if len(c["elems"]) > 1 else []),
         {"quick": 600, "thorough": 10000}, "all arguments in float32 / complex64 (small integer coordinates): exact span / intersection, incidence", shard=300, mandatory=("complex64", "float32")),
+    Law("integer_types_full_range", lambda tier: it_case(tier), run_it, lambda c: max(abs(x) for el in c["elems"] for v in el for x in v) > 181,
+        lambda c: [c["kind"], c["dt"]] + (["collection"] if len(c["elems"]) > 1 else []) + ([f"first-argument-{c['mixed']}"] if c.get("mixed") else [])
+        + ([f"{c['dt']}:products-beyond-the-type"] if max(abs(x) for el in c["elems"] for v in el for x in v) ** 2 > INT_RANGES[c["dt"]][1] else []),
+        {"quick": 1500, "thorough": 20000}, "all arguments arrays of one integer type (int8 ... uint32, int64) with coordinates over the whole range of the type: exactly the span / intersection", shard=300,
+        mandatory=("int16:products-beyond-the-type", "uint16:products-beyond-the-type", "int32:products-beyond-the-type", "uint8:products-beyond-the-type", "int8:products-beyond-the-type")),
     Law("wide_range_exact", lambda tier: wide_case(tier), run_wide, lambda c: True, lambda c: [c["op"], f"spread=2^{c['ka'] + c['kb']}"], {"quick": 300, "thorough": 4000},
         "join / meet in the plane on exactly representable data whose result spans ~50 binary orders of magnitude: exact proportionality to the cross product"),
 ] + [
